@@ -480,6 +480,9 @@ func splitNN(s string) (string, string) {
 // Generate mixes the shared scen generator (PBackendTLS off: BackendTLSPolicy validity is C16's subject) with
 // the routing-heavy profile.
 func Generate(r *rng.R) (*scen.Scenario, string) {
+	if r.Chance(25, 100) {
+		return GenFragment(r), "fragment"
+	}
 	if r.Chance(30, 100) {
 		cfg := scen.DefaultConfig()
 		cfg.PBackendTLS = 0
